@@ -119,8 +119,14 @@ func universes(thorough bool) []*universe {
 		{"p443-k1-clusterip", mkSvc(ports(443), share("k1"), clusterIPType())},
 		{"p80udp-k1", mkSvc(ports(), udp(80), share("k1"))},
 		{"p443-k1-clusterip-statuswiped", mkSvc(ports(443), share("k1"), clusterIPType())},
+		// an unparsable request (address given twice, in spec and annotation) on a service that may already hold an address,
+		// with the port of its sharing partner: the held address must be re-validated all the same
+		{"p80-k1-request-malformed", mkSvc(share("k1"), lbIP("10.0.0.0"), annot(AnnotationLoadBalancerIPs, "10.0.0.0"))},
+		// Local policy with a selector of two labels: the backend key of two such services must be equal however it is computed
+		{"p443-k1-local2labels", mkSvc(ports(443), share("k1"), local(map[string]string{"app": "a", "tier": "x"}))},
+		{"p8080-k1-local2labels", mkSvc(ports(8080), share("k1"), local(map[string]string{"app": "a", "tier": "x"}))},
 	}
-	shareSlotVs := map[int][]int{2: {0, 2, 7, 9}, 1: {0, 1, 2, 3, 4, 5, 6, 7, 8, 9, 10, 11, 12}}
+	shareSlotVs := map[int][]int{2: {0, 2, 7, 9, 16}, 1: {0, 1, 2, 3, 4, 5, 6, 7, 8, 9, 10, 11, 12, 14, 15}, 0: {0, 1, 2, 3, 4, 5, 6, 7, 8, 9, 10, 11, 12, 13, 14}}
 	if thorough {
 		shareSlotVs = nil
 	}
